@@ -176,4 +176,39 @@ def encodeAll (ct : CTable) (codes : List Nat) : List (Nat × Nat) :=
     let r := encodeLoop ct rev (initCState2 ct last) []
     flushCState ct r.1 :: r.2
 
+/-! ### two interleaved states: FSE_compress_usingCTable (used for the Huffman weights, HUF_compressWeights) -/
+
+/-- FSE_compress_usingCTable_generic (fse_compress.c) behind the initialisation: the symbols that remain (`rev`, in encoding order =
+reverse source order; an even number of them) go alternately to CState2 and to CState1 - `FSE_encodeSymbol(&bitC, &CState2, *--ip);
+FSE_encodeSymbol(&bitC, &CState1, *--ip);` is what the "join to mod 4" step does once and the main loop once or twice per turn.  The
+FSE_FLUSHBITS calls in between do not change the bytes (Lemmas/BitsRT.lean `flush_irrelevant`).  Every field is pushed on top of `stack`. -/
+def encodePairs (ct : CTable) : List Nat → Nat → Nat → List (Nat × Nat) → Nat × Nat × List (Nat × Nat)
+  | a :: b :: rev, s1, s2, stack =>
+    let r2 := encodeSymbol ct s2 a
+    let r1 := encodeSymbol ct s1 b
+    encodePairs ct rev r1.1 r2.1 (r1.2 :: r2.2 :: stack)
+  | _, s1, s2, stack => (s1, s2, stack)
+
+/-- FSE_compress_usingCTable_generic: the stack of (value, width) bit fields, top (= last pushed) first; `none` = the C function returns 0
+(`srcSize <= 2`).  Initialisation: `if (srcSize & 1) { FSE_initCState2(&CState1, ct, *--ip); FSE_initCState2(&CState2, ct, *--ip);
+FSE_encodeSymbol(&bitC, &CState1, *--ip); } else { FSE_initCState2(&CState2, ct, *--ip); FSE_initCState2(&CState1, ct, *--ip); }`;
+end: `FSE_flushCState(&bitC, &CState2); FSE_flushCState(&bitC, &CState1)` (BIT_closeCStream: the end mark, added by `BitW.ofFields`). -/
+def compressStack (ct : CTable) (src : List Nat) : Option (List (Nat × Nat)) :=
+  if src.length ≤ 2 then none else
+  match src.reverse with
+  | x0 :: x1 :: rev =>
+    let r :=
+      if src.length % 2 = 1 then
+        match rev with
+        | x2 :: rev2 =>
+          let e := encodeSymbol ct (initCState2 ct x0) x2
+          encodePairs ct rev2 e.1 (initCState2 ct x1) [e.2]
+        | [] => encodePairs ct [] (initCState2 ct x0) (initCState2 ct x1) []
+      else encodePairs ct rev (initCState2 ct x1) (initCState2 ct x0) []
+    some (flushCState ct r.1 :: flushCState ct r.2.1 :: r.2.2)
+  | _ => none
+
+/-- the fields in the order they are appended to the forward bit writer -/
+def compressFields (ct : CTable) (src : List Nat) : Option (List (Nat × Nat)) := (compressStack ct src).map List.reverse
+
 end ZstdVerif.FSE
